@@ -4,6 +4,7 @@ R17i frozen inventory of Share_twoparty / Flip_twoparty / the trapdoor-commitmen
 R17a commit-before-reveal: a value that exposes the secret share (not hidden under an
      exponentiation) is sent only after every other participant's commitment was received
      and membership-checked, on every path,
+R17d a member index set filled during a run (the qualified set) is cleared first in the same function,
 R17b the opening of the peer is used only after the range checks and the commitment equation
      (inventory), and the result is the running sum modulo q of the shares."""
 from . import invcheck
@@ -120,8 +121,84 @@ def run(ctx):
                 return False
             if n_[0] == 'mod' and n_[2] == q and is_sum(n_[1]):
                 okr = True
+    # ... over all participants: the accumulated shares a_i[j] are indexed by a counting loop over
+    # [0, n), or by the members of the qualified set, which then has to be a per-run set (R17d)
+    okrange = False
+    qual_based = False
+    for nid, ev in b.all_events('write'):
+        if ev[1] != ('v', outp['id'], outp['n']):
+            continue
+        for x in Tb.subterms(ev[2]):
+            if Tb.op(x) != 'ix' or 'a_i' not in Tb.show(x, 3):
+                continue
+            for L in b.ix_loops(x):
+                lb = b.loop_bound.get(L)
+                if lb and lb[0] == Tb.mk('this', 'n') and lb[1] == '<' and Tb.is_int(lb[2], 0) and lb[3] == 1:
+                    okrange = True
+                elif lb and 'Qual' in Tb.show(lb[0], 4):
+                    qual_based = True
+        if Tb.op(ev[2]) in ('add', 'mod') and 'Qual' in Tb.show(ev[2], 6):
+            qual_based = True
+    if not okrange and not qual_based:
+        # an iterator loop over the qualified set shows as an element of that set used as index
+        for nid, ev in b.all_events('index'):
+            if ev[2] is not None and 'Qual' in Tb.show(ev[2], 4) and 'a_i' in str(ev[1]):
+                qual_based = True
+    r17d_ok = r17d(ctx)
+    if okrange:
+        ctx.ok('R17b', 'R17b:Flip_twoparty:range', 'the shares of all participants j in [0, n) are summed', flip)
+    elif qual_based and r17d_ok and r17d_fills(ctx, 'Share_twoparty'):
+        ctx.ok('R17b', 'R17b:Flip_twoparty:range', 'the shares of the qualified set are summed; the set is rebuilt in every run of the sharing', flip)
+    else:
+        ctx.bad('R17b', 'R17b:Flip_twoparty:range', 'the result does not sum the shares of exactly the participants of this run (%s)' %
+                ('it runs over the qualified set, which the two-party sharing does not rebuild per run' if qual_based else 'no counting loop over [0, n) indexes the shares'), flip)
     r17c(ctx)
     (ctx.ok if okr else ctx.bad)('R17b', 'R17b:Flip_twoparty:sum', 'result accumulates the shares modulo q' if okr else 'result is not the sum of the shares modulo q', flip)
+
+
+C17_CLASSES = ('JareckiLysyanskayaRVSS', 'JareckiLysyanskayaEDCF')
+
+
+def _set_pushes(ctx):
+    """(function, analysis, node, event, cleared?) for every push into a member index set of the
+    coin-flip classes outside constructors"""
+    prog = ctx.prog
+    out = []
+    for k, f in sorted(prog.funcs.items(), key=lambda kv: (kv[1]['q'], kv[0])):
+        if f.get('cls') not in C17_CLASSES or not f.get('body') or prog.is_helper(f) or f['q'].split('::')[-1] == f.get('cls'):
+            continue
+        a = ctx.analysis(f)
+        evs = list(a.all_events('mcall'))
+        for nid, ev in evs:
+            ol = ev[6]
+            if ev[1].split('::')[-1] in ('push_back', 'emplace_back', 'insert') and ol and ol[0] == 'm':
+                doms = set(a.dominators_of(nid, 100000))
+                cleared = any(e2[1].split('::')[-1] == 'clear' and e2[6] == ol and n2 in doms and n2 != nid for n2, e2 in evs)
+                out.append((f, a, nid, ev, cleared))
+    return out
+
+
+def r17d(ctx):
+    """a member set filled during a protocol run (the qualified set) is a per-run result: every push
+    into it is dominated by a clear() of the same member in the same function, otherwise a second
+    run on the object sees the entries of the first (shares counted twice)"""
+    okall = True
+    n = 0
+    for f, a, nid, ev, cleared in _set_pushes(ctx):
+        n += 1
+        key = 'R17d:%s:%s' % (f['q'], ev[6][1])
+        if cleared:
+            ctx.ok('R17d', key, 'the set is cleared before it is filled in this run', f, line=ev[4])
+        else:
+            okall = False
+            ctx.bad('R17d', key, 'entries are appended to the member set %s without clearing it first: a second run on the same object keeps the entries of the first, '
+                    'and sums over the set count shares twice' % ev[6][1], f, line=ev[4])
+    ctx.floor('R17d', n, 1)
+    return okall
+
+
+def r17d_fills(ctx, fname):
+    return any(f['q'].endswith('::' + fname) and cleared for f, a, nid, ev, cleared in _set_pushes(ctx))
 
 
 def locn(a, ev):
